@@ -26,6 +26,9 @@ pub enum Item {
     NumBool(bool),
     /// Enumerated with `count` items, index
     Enum(u64, u64),
+    /// Integer<i64> / Integer<u8> / Boolean / Enumerated (3 items) whose constraint carries a tag of
+    /// class 0..4 and number in {0, 7, 30}: (class, number, kind 0..4, value)
+    Tagged(u8, usize, u8, i128),
 }
 
 impl Item {
@@ -33,6 +36,7 @@ impl Item {
         match self {
             Item::Length(l) => json!({"t": "length", "v": l.to_string()}),
             Item::Tag(c, n) => json!({"t": "tag", "class": c, "number": n}),
+            Item::Tagged(c, n, k, v) => json!({"t": "tagged", "class": c, "number": n, "kind": k, "v": v.to_string()}),
             Item::Bool(b) => json!({"t": "bool", "v": b}),
             Item::BoolOctet(o) => json!({"t": "bool_octet", "v": o}),
             Item::I64(v) => json!({"t": "i64", "v": v.to_string()}),
@@ -53,6 +57,7 @@ impl Item {
             "u64" => Item::U64(s("v").parse().unwrap()),
             "num" => Item::Num(j["ty"].as_u64().unwrap() as u8, s("v").parse().unwrap()),
             "num_bool" => Item::NumBool(j["v"].as_bool().unwrap()),
+            "tagged" => Item::Tagged(j["class"].as_u64().unwrap() as u8, j["number"].as_u64().unwrap() as usize, j["kind"].as_u64().unwrap() as u8, j["v"].as_str().unwrap().parse().unwrap()),
             _ => Item::Enum(j["count"].as_u64().unwrap(), j["index"].as_u64().unwrap()),
         }
     }
@@ -67,6 +72,7 @@ impl Item {
             Item::Num(..) => "Integer<T>",
             Item::NumBool(_) => "Boolean",
             Item::Enum(..) => "Enumerated",
+            Item::Tagged(..) => "tagged",
         }
     }
 }
@@ -77,6 +83,87 @@ fn tag_of(class: u8, n: usize) -> Tag {
         1 => Tag::Application(n),
         2 => Tag::ContextSpecific(n),
         _ => Tag::Private(n),
+    }
+}
+
+/// constraint carrying the tag (class C, number N) for Integer<T>, Boolean and a 3-item ENUMERATED
+#[derive(Debug, Clone, PartialEq)]
+struct Tg<const C: u8, const N: usize>(u64);
+impl<const C: u8, const N: usize> common::Constraint for Tg<C, N> {
+    const TAG: Tag = match C {
+        0 => Tag::Universal(N),
+        1 => Tag::Application(N),
+        2 => Tag::ContextSpecific(N),
+        _ => Tag::Private(N),
+    };
+}
+impl<const C: u8, const N: usize, T: numbers::Number> numbers::Constraint<T> for Tg<C, N> {}
+impl<const C: u8, const N: usize> asn1rs::descriptor::boolean::Constraint for Tg<C, N> {}
+impl<const C: u8, const N: usize> enumerated::Constraint for Tg<C, N> {
+    const NAME: &'static str = "Tg";
+    const VARIANT_COUNT: u64 = 3;
+    const STD_VARIANT_COUNT: u64 = 3;
+    fn to_choice_index(&self) -> u64 {
+        self.0
+    }
+    fn from_choice_index(index: u64) -> Option<Self> {
+        if index < 3 {
+            Some(Tg(index))
+        } else {
+            None
+        }
+    }
+}
+
+/// write (W = true) or read-and-compare one tagged item
+fn tagged_item<const C: u8, const N: usize>(buf: Option<&mut Vec<u8>>, slice: Option<&mut &[u8]>, kind: u8, v: i128) -> Result<(), String> {
+    use asn1rs::descriptor::Boolean;
+    match (buf, slice) {
+        (Some(buf), _) => {
+            let mut w = DER::writer(&mut *buf);
+            match kind {
+                0 => Integer::<i64, Tg<C, N>>::write_value(&mut w, &(v as i64)).map_err(|e| e.to_string()),
+                1 => Integer::<u8, Tg<C, N>>::write_value(&mut w, &(v as u8)).map_err(|e| e.to_string()),
+                2 => Boolean::<Tg<C, N>>::write_value(&mut w, &(v != 0)).map_err(|e| e.to_string()),
+                _ => Enumerated::<Tg<C, N>>::write_value(&mut w, &Tg::<C, N>(v as u64)).map_err(|e| e.to_string()),
+            }
+        }
+        (None, Some(slice)) => {
+            let mut r = DER::reader(&mut *slice);
+            let got: i128 = match kind {
+                0 => Integer::<i64, Tg<C, N>>::read_value(&mut r).map_err(|e| format!("read error: {e}"))? as i128,
+                1 => Integer::<u8, Tg<C, N>>::read_value(&mut r).map_err(|e| format!("read error: {e}"))? as i128,
+                2 => Boolean::<Tg<C, N>>::read_value(&mut r).map_err(|e| format!("read error: {e}"))? as i128,
+                _ => Enumerated::<Tg<C, N>>::read_value(&mut r).map_err(|e| format!("read error: {e}"))?.0 as i128,
+            };
+            if got != v {
+                return Err(format!("read {got} but wrote {v}"));
+            }
+            Ok(())
+        }
+        _ => Ok(()),
+    }
+}
+
+fn tagged_dispatch(class: u8, number: usize, buf: Option<&mut Vec<u8>>, slice: Option<&mut &[u8]>, kind: u8, v: i128) -> Result<(), String> {
+    macro_rules! go {
+        ($c:literal, $n:literal) => {
+            tagged_item::<$c, $n>(buf, slice, kind, v)
+        };
+    }
+    match (class, number) {
+        (0, 0) => go!(0, 0),
+        (0, 7) => go!(0, 7),
+        (0, _) => go!(0, 30),
+        (1, 0) => go!(1, 0),
+        (1, 7) => go!(1, 7),
+        (1, _) => go!(1, 30),
+        (2, 0) => go!(2, 0),
+        (2, 7) => go!(2, 7),
+        (2, _) => go!(2, 30),
+        (_, 0) => go!(3, 0),
+        (_, 7) => go!(3, 7),
+        (_, _) => go!(3, 30),
     }
 }
 
@@ -124,6 +211,7 @@ fn write_item(buf: &mut Vec<u8>, it: &Item) -> Result<(), String> {
     match it {
         Item::Length(l) => buf.write_length(*l).map_err(|e| e.to_string()),
         Item::Tag(c, n) => buf.write_identifier(tag_of(*c, *n)).map_err(|e| e.to_string()),
+        Item::Tagged(c, n, k, v) => tagged_dispatch(*c, *n, Some(buf), None, *k, *v),
         Item::Bool(b) => buf.write_boolean(*b).map_err(|e| e.to_string()),
         Item::BoolOctet(o) => {
             buf.push(*o);
@@ -195,6 +283,7 @@ fn read_item(slice: &mut &[u8], it: &Item, written: usize) -> Result<(), String>
             }
             Ok(())
         }
+        Item::Tagged(c, n, k, v) => tagged_dispatch(*c, *n, None, Some(slice), *k, *v),
         Item::Bool(b) => {
             let got = slice.read_boolean().map_err(|e| format!("read error: {e}"))?;
             if got != *b {
@@ -387,6 +476,22 @@ fn enumerated_items() -> Vec<Item> {
             items.push(Item::Enum(c, i));
         }
     }
+    for class in 0..4u8 {
+        for number in [0usize, 7, 30] {
+            for v in [0i128, 1, -1, 127, 128, 255, 256, i64::MIN as i128, i64::MAX as i128] {
+                items.push(Item::Tagged(class, number, 0, v));
+            }
+            for v in [0i128, 1, 127, 128, 255] {
+                items.push(Item::Tagged(class, number, 1, v));
+            }
+            for v in [0i128, 1] {
+                items.push(Item::Tagged(class, number, 2, v));
+            }
+            for v in [0i128, 1, 2] {
+                items.push(Item::Tagged(class, number, 3, v));
+            }
+        }
+    }
     items
 }
 
@@ -413,10 +518,19 @@ fn item_strategy() -> impl Strategy<Value = Item> {
         }),
         any::<bool>().prop_map(Item::NumBool),
         (proptest::sample::select(ENUM_COUNTS.to_vec()), any::<u16>()).prop_map(|(c, i)| Item::Enum(c, ((i as u64) * c) >> 16)),
+        (0..4u8, proptest::sample::select(vec![0usize, 7, 30]), 0..4u8, any::<i64>()).prop_map(|(c, n, k, v)| {
+            let v = match k {
+                0 => v as i128,
+                1 => (v as u8) as i128,
+                2 => (v & 1) as i128,
+                _ => (v as u64 % 3) as i128,
+            };
+            Item::Tagged(c, n, k, v)
+        }),
     ]
 }
 
-const RULE: &str = "enumerated: every length in {0..300, 2^k +-2, 2^(7k) +-2, u64::MAX-2..u64::MAX}, every tag class x number 0..30, both booleans, every boolean content octet 0..255, i64/u64 boundary families through write_integer_*/read_integer_* and through BasicWriter/BasicReader with Integer<i8..u64>, Boolean, Enumerated with 1..300 items, non-extensible and extensible with half of the items behind the marker (every index) - each alone in a buffer; generated (proptest): sequences of 2..8 such items in one buffer read back from one slice. Non-trivial: every item / sequence (distinct = hash of the item sequence).";
+const RULE: &str = "enumerated: every length in {0..300, 2^k +-2, 2^(7k) +-2, u64::MAX-2..u64::MAX}, every tag class x number 0..30, both booleans, every boolean content octet 0..255, i64/u64 boundary families through write_integer_*/read_integer_* and through BasicWriter/BasicReader with Integer<i8..u64>, Boolean, Enumerated with 1..300 items, non-extensible and extensible with half of the items behind the marker (every index), and Integer<i64> / Integer<u8> / Boolean / Enumerated whose constraint carries a tag of each of the four classes with number 0 / 7 / 30 - each alone in a buffer; generated (proptest): sequences of 2..8 such items in one buffer read back from one slice. Non-trivial: every item / sequence (distinct = hash of the item sequence).";
 
 pub fn run(ctx: Ctx) -> i32 {
     let report = Report::new(ctx.clone(), RULE);
